@@ -5,7 +5,7 @@
 From Coq Require Import ZArith List String Bool.
 Import ListNotations.
 From MV Require Import Symmetry.Table Symmetry.Affine Reflect.GroupChecks Reflect.GroupChecksProofs
-  Reflect.NormChecks Reflect.NormChecksProofs.
+  Reflect.NormChecks Reflect.NormChecksProofs Reflect.CertProofs.
 From MVD Require Import Generated.SGAll Generated.RefSpglib Generated.ChkAll Inst.C14Inst.
 Open Scope Z_scope.
 
@@ -81,6 +81,20 @@ Theorem C14_normalizers :
       /\ letters_ok tr ws n (n_perm rn) cs = true.
 Proof. exact normalizer_semantics. Qed.
 Print Assumptions C14_normalizers.
+
+(* meaning of the clause [letters_ok] above: for every letter, n maps the family of its first
+   representative -- for ALL rational parameter values -- onto the family of an expression of the
+   tabulated image letter, up to an integer lattice vector (and by C14.3 + "n normalises the group" the
+   whole orbit family of the letter onto the whole family of the image letter) *)
+Theorem C14_normalizer_maps_letter_families :
+  forall tr ws n p cs, letters_ok tr ws n p cs = true ->
+  forall w c, In (w, c) (combine ws cs) ->
+    exists l' w' e1 e2, perm_get p (iw_letter w) = Some l' /\ find_wyck ws l' = Some w'
+      /\ hd_error (iw_exprs w) = Some e1 /\ nth_error (full_exprs tr w') (lc_j c) = Some e2
+      /\ (forall W, exists W', q3eq (aff_evalQ (act n e1) W) (q3add (aff_evalQ e2 W') (z_as_Q (lc_z c))))
+      /\ (forall W', exists W, q3eq (q3add (aff_evalQ e2 W') (z_as_Q (lc_z c))) (aff_evalQ (act n e1) W)).
+Proof. exact letter_families. Qed.
+Print Assumptions C14_normalizer_maps_letter_families.
 
 (* one certificate list per normalizer, and the letter permutations (also those of the proper
    normalizers alone) are closed under composition *)
